@@ -62,7 +62,7 @@ def gen_abstract(rng, guards, tier='quick'):
             d['existence_status'] = rng.random() < 0.5
             d['ttc'] = None
         else:
-            d['ttc'] = copy.deepcopy(rng.choice([TTC_NONE, TTC_NONE, TTC_EN, TTC_DIS, TTC_EXP, TTC_BER]))
+            d['ttc'] = copy.deepcopy(rng.choice([TTC_NONE, TTC_NONE, TTC_EN, TTC_DIS, TTC_EXP, TTC_BER, {}]))
             if 'ttc_gate' in guards and d['ttc'] and d['ttc']['name'] not in ('Enabled', 'Disabled'):
                 d['ttc'] = None
         nodes.append(d)
@@ -132,6 +132,7 @@ class World(BaseWorld):
         self.orders = set()
         self.nmat = 0
         self.interesting = False
+        self.flips = set()
         if self.kind == 'abstract':
             g = desc['graph']
             self.ref = RefGraph()
@@ -210,7 +211,9 @@ class World(BaseWorld):
         perm = list(range(nassets))
         if self.nmat:
             rng.shuffle(perm)
-        return {'op': 'analyse', 'mat': 'model', 'perm': perm}
+        # defenses switched in the graph after it was generated (the model is not told)
+        return {'op': 'analyse', 'mat': 'model', 'perm': perm,
+                'flip': [rng.randrange(1000) for _ in range(rng.choice([0, 0, 1, 2]))]}
 
     def apply(self, op):
         if op['op'] != 'analyse':
@@ -356,6 +359,13 @@ class World(BaseWorld):
         if o.raised:
             raise SetupRejected('generate:' + o.exc_name())
         g = o.value
+        if self.ref is None:
+            dnodes = [nd for nd in g.nodes if nd.type == 'defense']
+            self.flips = {dnodes[i % len(dnodes)].full_name for i in op.get('flip', [])} if dnodes else set()
+        for nd in g.nodes:
+            if nd.full_name in self.flips:
+                nd.defense_status = 0.0 if nd.defense_status == 1.0 else 1.0
+                self.count('probe:defense_switched_in_the_graph_only')
         self._younger = None
         if op.get('second_graph', True) and self.nmat % 2 == 1:
             # a second graph is built from the same model afterwards; the *older* one is the
